@@ -16,18 +16,23 @@ package http2
 //   transport.go setGoAway: abortStreamLocked(errClientConnGotGoAway)→(errClientConnClosed) -> VerifC18_goaway "aborted stream is reported as retryable"
 //   transport.go setGoAway: `old.ErrCode != ErrCodeNo`→`old.ErrCode == ErrCodeNo` -> VerifC18_goaway "merged error code"
 //   transport_common.go shouldRetryRequest: drop the `err == errClientConnUnusable` guard (return req, nil always) -> VerifC18_retry
+// Seeded change C18-A (awaitOpenSlotForStreamLocked re-checks only closed/closing after a wake-up, so a request queued
+//   for a slot is started after GOAWAY) -> VerifC18_queuedRequest "no new stream is opened on a connection that received GOAWAY"
 
 import (
 	"errors"
 	"io"
 	"math"
+	"net"
 	"net/http"
+	"time"
 )
 
 func init() {
 	vfRegister("VerifC18_goaway", VerifC18_goaway)
 	vfRegister("VerifC18_retry", VerifC18_retry)
 	vfRegister("VerifC18_blockedWriter", VerifC18_blockedWriter)
+	vfRegister("VerifC18_queuedRequest", VerifC18_queuedRequest)
 }
 
 const c18addr = "example.com:443"
@@ -305,5 +310,126 @@ func VerifC18_blockedWriter() {
 		h2cAwait(done, "a stream the server will process keeps running after GOAWAY")
 		vfAssert(werr == nil && taken == 5, "writer continues normally")
 	}
+	vfReach("end")
+}
+
+// c18conn is the net.Conn of VerifC18_queuedRequest: nothing is read or written through it, the Transport only
+// closes it (forgetStreamID -> closeConn once a connection that received GOAWAY has no streams left).
+type c18conn struct{ closed int }
+
+func (c *c18conn) Read([]byte) (int, error)         { return 0, io.EOF }
+func (c *c18conn) Write(p []byte) (int, error)      { return len(p), nil }
+func (c *c18conn) Close() error                     { c.closed++; return nil }
+func (c *c18conn) LocalAddr() net.Addr              { return nil }
+func (c *c18conn) RemoteAddr() net.Addr             { return nil }
+func (c *c18conn) SetDeadline(time.Time) error      { return nil }
+func (c *c18conn) SetReadDeadline(time.Time) error  { return nil }
+func (c *c18conn) SetWriteDeadline(time.Time) error { return nil }
+
+// GOAWAY at every position relative to a request that is QUEUED for a concurrency slot (shape B, symbolic
+// scheduler). Transport.StrictMaxConcurrentStreams: the connection is filled up to the server's limit m through the
+// real admission path, one more request runs the same admission path on its own goroutine and has to wait in
+// awaitOpenSlotForStreamLocked. The server then sends one GOAWAY (arbitrary last-stream-ID and error code) before,
+// between or after the m events "an active stream finishes" (forgetStreamID, in any order). The statement's
+// "opens no new streams on that connection" at the linearisation point of opening a stream (addStreamLocked under
+// cc.mu): the connection has not seen a GOAWAY; a request that could not be started is refused with the retryable
+// errClientConnUnusable without consuming a stream ID, and it is never left waiting (vfNoDeadlock).
+func VerifC18_queuedRequest() {
+	vfNoDeadlock()
+	h := h2cNewConn()
+	cc := h.cc
+	tconn := &c18conn{}
+	cc.tconn = tconn
+	cc.strictMaxConcurrentStreams = true
+	pool := cc.t.connPool().(*clientConnPool)
+	pool.mu.Lock()
+	pool.addConnLocked(c18addr, cc)
+	pool.mu.Unlock()
+	maxM := 2
+	if vfTier() > 0 {
+		maxM = 3
+	}
+	m := vfLen("limit", 1, maxM)
+	if err := h.rl.processSettingsNoWrite(h2cSettingsFrame(Setting{SettingMaxConcurrentStreams, uint32(m)})); err != nil {
+		vfAssert(false, "initial SETTINGS accepted")
+	}
+	var ghost h2cGhost
+	admit := func(cs *clientStream) error { // the critical section of clientStream.writeRequest
+		cc.mu.Lock()
+		defer cc.mu.Unlock()
+		cc.decrStreamReservationsLocked()
+		if err := cc.awaitOpenSlotForStreamLocked(cs); err != nil {
+			return err
+		}
+		ghost.assert(cc.goAway == nil, "no new stream is opened on a connection that received GOAWAY")
+		cc.addStreamLocked(cs)
+		return nil
+	}
+	var open []*clientStream
+	for i := 0; i < m; i++ {
+		cs := h2cNewStream(cc)
+		if err := admit(cs); err != nil {
+			vfAssert(false, "request below the limit admitted")
+		}
+		open = append(open, cs)
+	}
+	next := cc.nextStreamID
+	waiter := h2cNewStream(cc)
+	var werr error
+	done := make(chan struct{})
+	vfGo(func() {
+		werr = admit(waiter)
+		close(done)
+	})
+	h2cSettle(func() bool { cc.mu.Lock(); defer cc.mu.Unlock(); return cc.pendingRequests == 1 })
+
+	pos := vfChoice("goaway-position", m+1) // number of streams that finish before the GOAWAY arrives
+	last := vfU32("lastStreamID")
+	code := ErrCode(vfU32("errCode"))
+	f := c18frame(last, code)
+	for ev := 0; ev <= m; ev++ {
+		if ev == pos {
+			if err := h.rl.processGoAway(f); err != nil {
+				vfAssert(false, "GOAWAY is not a connection error")
+			}
+			for _, cs := range open {
+				vfAssert(h2cAborted(cs) == (cs.ID > f.LastStreamID), "active stream aborted iff its ID > last-stream-ID")
+			}
+			h2cPause()
+		}
+		if ev == m {
+			break
+		}
+		// one of the remaining active streams finishes (completed, or cleaned up after the GOAWAY aborted it)
+		i := vfChoice("finishes", len(open))
+		id := open[i].ID
+		open = append(open[:i:i], open[i+1:]...)
+		cc.forgetStreamID(id)
+		h2cPause()
+	}
+	h2cAwait(done, "a queued request is woken and either started or refused, never left waiting")
+	ghost.report()
+	cc.mu.Lock()
+	if werr == nil {
+		vfReach("queued-request-started-before-goaway")
+		vfAssert(waiter.ID == next && cc.streams[next] == waiter, "started request got the next stream ID")
+		if vfConcretizeBool(next > f.LastStreamID) {
+			vfReach("started-then-aborted-by-goaway")
+			vfAssert(h2cAborted(waiter) && waiter.abortErr == errClientConnGotGoAway, "a stream above the last-stream-ID is reported as retryable")
+		} else {
+			vfAssert(!h2cAborted(waiter), "a stream at or below the last-stream-ID is left alone")
+		}
+		vfAssert(!cc.closed && tconn.closed == 0, "connection with a running stream stays open")
+	} else {
+		vfReach("queued-request-refused")
+		vfAssert(werr == errClientConnUnusable, "a queued request that cannot start after GOAWAY is refused with errClientConnUnusable")
+		vfAssert(canRetryError(werr), "the refusal is retryable (the request moves to a new connection)")
+		vfAssert(waiter.ID == 0 && cc.nextStreamID == next && len(cc.streams) == 0, "no stream ID consumed, no stream opened")
+		vfAssert(!h2cAborted(waiter), "the refused request was not aborted")
+	}
+	vfAssert(cc.goAway != nil && !cc.isUsableLocked(), "connection unusable after GOAWAY")
+	vfAssert(cc.pendingRequests == 0, "no pending request left")
+	vfObserveBool("closed", cc.closed)
+	cc.mu.Unlock()
 	vfReach("end")
 }
